@@ -30,6 +30,19 @@ import (
 // indicate that two values did not match.
 var errNotEquals = errors.New("values are not equal")
 
+// listItems collects the items of a ValueList. Unlike ValueListToSlice it
+// reports the error of a list that fails to produce its items: a lazily
+// decoded list does when one of them is malformed. Such a list is not equal
+// to anything.
+func listItems(l ValueList) ([]Value, error) {
+	items := make([]Value, 0, l.Size())
+	err := l.ForEach(func(v Value) error {
+		items = append(items, v)
+		return nil
+	})
+	return items, err
+}
+
 // ValuesAreEqual checks if two values are equal.
 func ValuesAreEqual(left, right Value) bool {
 	if left.typ != right.typ {
@@ -110,13 +123,15 @@ func SetsAreEqual(left, right ValueList) bool {
 // as keys in a map.
 func setsArEqualHashable(size int, l, r ValueList) bool {
 	m := make(map[interface{}]bool, size)
-	// explicitly ignoring since we know there will not be an error
-	_ = l.ForEach(func(v Value) error {
+	err := l.ForEach(func(v Value) error {
 		m[toHashable(v)] = true
 		return nil
 	})
+	if err != nil {
+		return false
+	}
 
-	return errNotEquals != r.ForEach(func(v Value) error {
+	return nil == r.ForEach(func(v Value) error {
 		if _, ok := m[toHashable(v)]; !ok {
 			return errNotEquals
 		}
@@ -127,9 +142,12 @@ func setsArEqualHashable(size int, l, r ValueList) bool {
 // setsAreEqualUnhashable checks if two unordered ValueLists are equal for
 // types that are not hashable. Note that this is O(n^2) in time complexity.
 func setsAreEqualUnhashable(size int, l, r ValueList) bool {
-	lItems := ValueListToSlice(l)
+	lItems, err := listItems(l)
+	if err != nil {
+		return false
+	}
 
-	return errNotEquals != r.ForEach(func(rItem Value) error {
+	return nil == r.ForEach(func(rItem Value) error {
 		matched := false
 		for _, lItem := range lItems {
 			if ValuesAreEqual(lItem, rItem) {
@@ -165,13 +183,15 @@ func MapsAreEqual(left, right MapItemList) bool {
 func mapsAreEqualHashable(size int, l, r MapItemList) bool {
 	m := make(map[interface{}]Value, size)
 
-	// explicitly ignoring since we know there will not be an error
-	_ = l.ForEach(func(item MapItem) error {
+	err := l.ForEach(func(item MapItem) error {
 		m[toHashable(item.Key)] = item.Value
 		return nil
 	})
+	if err != nil {
+		return false
+	}
 
-	return errNotEquals != r.ForEach(func(item MapItem) error {
+	return nil == r.ForEach(func(item MapItem) error {
 		lValue, ok := m[toHashable(item.Key)]
 		if !ok {
 			return errNotEquals
@@ -184,9 +204,16 @@ func mapsAreEqualHashable(size int, l, r MapItemList) bool {
 }
 
 func mapsAreEqualUnhashable(size int, l, r MapItemList) bool {
-	lItems := MapItemListToSlice(l)
+	var lItems []MapItem
+	err := l.ForEach(func(item MapItem) error {
+		lItems = append(lItems, item)
+		return nil
+	})
+	if err != nil {
+		return false
+	}
 
-	return errNotEquals != r.ForEach(func(rItem MapItem) error {
+	return nil == r.ForEach(func(rItem MapItem) error {
 		matched := false
 		for _, lItem := range lItems {
 			if !ValuesAreEqual(lItem.Key, rItem.Key) {
@@ -234,8 +261,14 @@ func ListsAreEqual(left, right ValueList) bool {
 		return false
 	}
 
-	leftItems := ValueListToSlice(left)
-	rightItems := ValueListToSlice(right)
+	leftItems, err := listItems(left)
+	if err != nil {
+		return false
+	}
+	rightItems, err := listItems(right)
+	if err != nil || len(leftItems) != len(rightItems) {
+		return false
+	}
 
 	for i, lv := range leftItems {
 		rv := rightItems[i]
